@@ -55,6 +55,27 @@ CHECKS = {
              "indentation variants x widths x modes) must keep its tag lines alone and unindented, keep the list/table, and separate it from the tags by blank lines.",
         note="Trusted: literal token search in the output; Reader A for the list/table clause. Indented closing tags are outside the property (only required to survive).",
         ref="DESIGN.md §2 C06"),
+    "C07": dict(
+        level="exploration",
+        technique="bounded-exhaustive enumeration of frontmatter line sequences x terminators x closers x bodies x options; differential oracle format(fm+body) = fm + format(body)",
+        text="Every frontmatter body of up to 2 (quick) / 3 (thorough) lines over a 21-line alphabet (quotes, dots, Markdown syntax, trailing "
+             "spaces, blank lines, a long line, and one line per character that Python's splitlines treats as a line boundary: U+2028, U+2029, "
+             "NEL, FF, VT, FS/GS/RS, lone CR) x LF/CRLF x 4 closing-line forms (incl. missing) x leading blank line x 13 bodies x 8 option sets is "
+             "formatted; closed frontmatter must come out byte-identical (CRLF->LF) followed by exactly what the body alone formats to; unclosed "
+             "frontmatter must come back unchanged plus a final newline and be a fixed point.",
+        note="Trusted: the 12-line reference splitter in checks/c07.py. Bodies that begin with '---' are excluded from the independence clause.",
+        ref="DESIGN.md §2 C07"),
+    "C08": dict(
+        level="exploration",
+        technique="exhaustive enumeration of all short strings through smart_quotes(); bounded-exhaustive document enumeration with an option-on/option-off character-wise relation",
+        text="Function level: every string of length <= 6 (quick) / 7 (thorough) over a 12-symbol alphabet of quotes, letters, space, dot, newline, "
+             "tag delimiters, dash, parenthesis and backslash: output has the same length, differs only by straight->curly swaps of the right "
+             "kind, leaves template tags untouched and never pairs quotes across a paragraph break. Document level: every token sequence over "
+             "typography x inline x tag tokens in paragraphs, headings, table cells, list items, quotes and footnotes x widths x modes x other "
+             "options: option-on and option-off outputs have equal length and line breaks and differ only at quote characters outside protected spans; "
+             "two blocks formatted together equal the blocks formatted separately.",
+        note="Trusted: the protected-span regexes in checks/c08.py (deliberately independent of the repository's patterns).",
+        ref="DESIGN.md §2 C08"),
     "C05": dict(
         level="model_checking",
         technique="explicit-state model of the greedy filler, exhaustive trace enumeration + replay of every trace against the implementation",
